@@ -405,6 +405,12 @@ def run(chk: Check, ctx: Any) -> None:
     chk.floor("C15-R5", "explicit exit() calls", n_exit, 5)
     from .cli_roundtrip import cli_roundtrip_rule
     cli_roundtrip_rule(chk, ctx, "C15-R6")
+    chk.rule("C15-R7", "both command-line programs run as programs (their __main__ blocks interpreted on a virtual file system with a working directory and an "
+                       "argument vector): the documented call with relative lookup paths given twice; the printed document has the documented structure and its "
+                       "jump parameters are 1-based positions; compile | decompile | compile behaves like the source; a hand-written document with every documented "
+                       "routine and argument type and the four dungeon mode states; exit status 0 exactly on success, errors on standard error")
+    from .cli_main import cli_main_rule
+    cli_main_rule(chk, ctx, "C15-R7")
 
 
 
